@@ -185,8 +185,15 @@ func c14(r *core.Run) {
 
 	// R4 arithmetic right shift: floor(x / 2^n) of a negative x is never a constant — a return of a constant value from the
 	// right shift of a signed type (the "count too large" shortcut) must be decided by a test of the receiver's sign
+	type shiftFn struct{ rel, recv string }
+	var shiftFns []shiftFn
 	for _, t := range signed {
-		fn := mustFn(r, "R4.shiftsign", "interpreter", t+"Value", "BitwiseRightShift")
+		shiftFns = append(shiftFns, shiftFn{"interpreter", t + "Value"})
+	}
+	// the unbounded Int lives in package values (the interpreter's IntValue delegates to it)
+	shiftFns = append(shiftFns, shiftFn{"values", "IntValue"})
+	for _, sf := range shiftFns {
+		fn := mustFn(r, "R4.shiftsign", sf.rel, sf.recv, "BitwiseRightShift")
 		if fn == nil {
 			continue
 		}
@@ -214,6 +221,65 @@ func c14(r *core.Run) {
 								return true
 							}
 						}
+					}
+				}
+				in, ok := x.(ssa.Instruction)
+				if !ok {
+					return false
+				}
+				for _, op := range in.Operands(nil) {
+					if op != nil && *op != nil && walk(*op, d+1) {
+						return true
+					}
+				}
+				return false
+			}
+			return walk(v, 0)
+		}
+		dependsOnRecvDirect := func(v ssa.Value) bool {
+			for i := 0; i < 6; i++ {
+				switch y := v.(type) {
+				case *ssa.Convert:
+					v = y.X
+					continue
+				case *ssa.ChangeType:
+					v = y.X
+					continue
+				case *ssa.UnOp:
+					v = y.X
+					continue
+				case *ssa.Field:
+					v = y.X
+					continue
+				case *ssa.FieldAddr:
+					v = y.X
+					continue
+				}
+				break
+			}
+			return dependsOnRecv(v) && func() bool { _, isCall := v.(*ssa.Call); return !isCall }()
+		}
+		// a test of the receiver's *sign*: a Sign() call on (a part of) the receiver, or a comparison of the receiver with
+		// the constant 0 — not any property of the receiver (its bit length says nothing about the sign)
+		signTest := func(v ssa.Value) bool {
+			seen := map[ssa.Value]bool{}
+			var walk func(x ssa.Value, d int) bool
+			walk = func(x ssa.Value, d int) bool {
+				if x == nil || seen[x] || d > 8 {
+					return false
+				}
+				seen[x] = true
+				switch y := x.(type) {
+				case *ssa.Call:
+					if o := core.Callee(y); o != nil && o.Name() == "Sign" && len(y.Call.Args) > 0 && dependsOnRecv(y.Call.Args[0]) {
+						return true
+					}
+				case *ssa.BinOp:
+					if c, ok := y.Y.(*ssa.Const); ok && c.Value != nil && c.Value.ExactString() == "0" && dependsOnRecvDirect(y.X) {
+						return true
+					}
+					if c, ok := y.X.(*ssa.Const); ok && c.Value != nil && c.Value.ExactString() == "0" && dependsOnRecvDirect(y.Y) {
+						return true
 					}
 				}
 				in, ok := x.(ssa.Instruction)
@@ -261,8 +327,14 @@ func c14(r *core.Run) {
 		for _, b := range fn.Blocks {
 			for _, in := range b.Instrs {
 				ret, ok := in.(*ssa.Return)
-				if !ok || len(ret.Results) != 1 {
+				if !ok || len(ret.Results) < 1 || len(ret.Results) > 2 {
 					continue
+				}
+				if len(ret.Results) == 2 {
+					// (value, error): only returns without an error carry a result
+					if c, isConst := ret.Results[1].(*ssa.Const); !isConst || !c.IsNil() {
+						continue
+					}
 				}
 				nret++
 				key := core.SSAKey(fn) + ": return #" + strconv.Itoa(nret)
@@ -272,7 +344,7 @@ func c14(r *core.Run) {
 				}
 				decided := false
 				for _, a := range core.ControllingConds(ret) {
-					if a.Var.Call != nil && dependsOnRecv(a.Var.Call) {
+					if a.Var.Call != nil && signTest(a.Var.Call) {
 						decided = true
 					}
 				}
